@@ -8,6 +8,7 @@ import (
 
 	"google.golang.org/protobuf/encoding/protojson"
 	"google.golang.org/protobuf/encoding/prototext"
+	"google.golang.org/protobuf/internal/flags"
 	"google.golang.org/protobuf/internal/strs"
 	"google.golang.org/protobuf/proto"
 	"google.golang.org/protobuf/reflect/protoreflect"
@@ -47,6 +48,10 @@ func c17Roots() []string {
 		if lazyCapable(t) {
 			roots = append(roots, t)
 		}
+	}
+	if flags.ProtoLegacy {
+		// with -tags protolegacy extension values are decoded lazily too
+		roots = append(roots, gen.TExt2, gen.TExt2)
 	}
 	return roots
 }
